@@ -283,3 +283,36 @@ func sameValue(a, b ssa.Value, d int) bool {
 	}
 	return false
 }
+
+// Induction recognises a +1 induction variable in either loop shape go/ssa emits:
+// the header phi itself (for i := 0; …; i++) or the rotated range form
+// t = phi(-1, t') ; t' = t + 1 where t' is the value used as index. It returns
+// the header phi.
+func Induction(v ssa.Value) (*ssa.Phi, bool) {
+	isStep := func(ph *ssa.Phi, w ssa.Value) bool {
+		b, ok := w.(*ssa.BinOp)
+		if !ok || b.Op != token.ADD || b.X != ssa.Value(ph) {
+			return false
+		}
+		k, isC := ConstInt(b.Y)
+		return isC && k == 1
+	}
+	if ph, ok := v.(*ssa.Phi); ok {
+		for _, e := range ph.Edges {
+			if isStep(ph, e) {
+				return ph, true
+			}
+		}
+		return nil, false
+	}
+	if b, ok := v.(*ssa.BinOp); ok {
+		if ph, ok := b.X.(*ssa.Phi); ok && isStep(ph, b) {
+			for _, e := range ph.Edges {
+				if e == ssa.Value(b) {
+					return ph, true
+				}
+			}
+		}
+	}
+	return nil, false
+}
